@@ -50,6 +50,18 @@ CHECKS["C19"] = {
     "note": "Trusted: CPython semantics of the straight-line wrapper, rust-cpython glue, json.dumps/loads round-trips (library behaviour outside the repository). Panic-freedom of the library under the python configuration is C01.",
     "technique": "Python AST dataflow (definite assignment of defaults, argument-shape rules) + MIR def-use rules on the binding + setup.py AST facts",
 }
+CHECKS["C05"] = {
+    "level": "other",
+    "text": "Structural necessary conditions over all paths of the functions bound to if/?:/and/or: alias and lazy-table facts; no pre-pass (every parse and evaluation of an operand drawn from the operand list sits in per-element code — loop body or closure handed to the iterator consumer; no list parser, no mapped parser); the per-element code has a path without parse/evaluate (or the loop an early exit after an evaluation) and no path with more than one evaluation; and/or construct no JSON value and return an evaluation result, if constructs only null; truthiness through the shared table (C06).",
+    "note": "Does not decide that conditions sit at even and branches at odd positions nor the polarity of the accumulator tests (value-level). Trusted: rustc MIR, the iterator-consumer list in rules/opfacts.py.",
+    "technique": "CFG path rules (path existence avoiding call sites, longest-path call counting), per-element context classification, provenance tags, table facts",
+}
+CHECKS["C06"] = {
+    "level": "other",
+    "text": "Every deciding position (the ! and !! closures, if/?:, and, or, filter, all, some; none through some) calls the one truthiness function or a pure forwarder, uses the result, and calls no other JSON-value→bool function or serde_json type/number accessor; `!` is Not of the same call on operand 0 that `!!` returns; the table itself is decided per kind by variant specialisation: Null→const false, Object→const true, Bool→payload, Number→as_f64(payload) compared with 0.0 with zero⇒false (no integer accessor), String/Array→payload emptiness with empty⇒false, no iteration over elements, no recursion.",
+    "note": "The polarity facts are read from the constants assigned under each edge of the comparison; IEEE -0.0 == 0.0 and Number::as_f64 are trusted.",
+    "technique": "must-call / who-may-call rules on operator units; variant specialisation of the truthiness function with constant-under-edge polarity reading",
+}
 NOT_APPLICABLE = {}
 for i in range(1, 20):
     p = "C%02d" % i
